@@ -32,7 +32,7 @@ RULE = (
 ASSUMPTIONS = ["only injective mappings are in the property's domain; others are counted out of domain"]
 
 PA = ["a", "b", "c", "d", "e", "A"]
-UA = ["u1/", "u2/", "u3/", "u4/", "u5/", "u6/", "u7/", "U1/", "http://t/n/", "https://t/n/"]
+UA = ["u1/", "u2/", "u3/", "u4/", "u5/", "u6/", "u7/", "U1/", "http://t/n/", "https://t/n/", "http://example.org/b/"]
 
 
 # ---- bounded-exhaustive small world: every injective mapping with <= 3 pairs over small name sets -------------------
@@ -159,6 +159,14 @@ def run_case(ctx, g, rng):
         if cand not in vals:
             vals[rng.randrange(len(vals))] = cand
             S.counters["wl:new-uri-prefixes-nested-with-registered-ones"] += 1
+    if rng.random() < 0.25 and vals:
+        # an unused new URI prefix that a lenient reader would take for a registered one (letter case of scheme / host or
+        # of the whole string, the other scheme, a blank): unused is unused (seed C12-R: ownership decided after RFC 3986
+        # case normalisation)
+        tw = [x for x in gen.twins(rng.choice(allu), uri=True) if x not in allu and x not in vals]
+        if tw:
+            vals[rng.randrange(len(vals))] = rng.choice(tw)
+            S.counters["wl:new-uri-prefixes-that-are-twins-of-registered-ones"] += 1
     m = dict(zip(keys, vals))
     # the converter may have a past (registered record by record, grown through merges) and any delimiter
     c, how = gen.build(api, recs, d, rng, share_lists=True)
